@@ -50,13 +50,13 @@ MIN_HITS = {
     'quick': {
         'mon:finite': 400, 'mon:range': 200, 'mon:member': 200, 'mon:identity': 60, 'mon:unbiased': 80,
         'mon:tern': 100, 'mon:ternbias': 30, 'mon:drive': 40, 'mon:linear': 200, 'mon:errbound': 100,
-        'mon:clientkeys': 20, 'mon:rounds': 60, 'mon:bits': 400, 'mon:zerodraw': 1,
+        'mon:clientkeys': 20, 'mon:rounds': 60, 'mon:bits': 400, 'mon:zerodraw': 1, 'hook:uq': 300, 'hook:tq': 100, 'hook:rot': 200,
         'class:zero-leaf-drive': 2, 'class:identical-clients': 10, 'coords:unbiased-offgrid': 2000,
     },
     'thorough': {
         'mon:finite': 4000, 'mon:range': 2000, 'mon:member': 2000, 'mon:identity': 600, 'mon:unbiased': 800,
         'mon:tern': 1000, 'mon:ternbias': 300, 'mon:drive': 300, 'mon:linear': 2000, 'mon:errbound': 1000,
-        'mon:clientkeys': 200, 'mon:rounds': 600, 'mon:bits': 4000, 'mon:zerodraw': 1,
+        'mon:clientkeys': 200, 'mon:rounds': 600, 'mon:bits': 4000, 'mon:zerodraw': 1, 'hook:uq': 3000, 'hook:tq': 1000, 'hook:rot': 2000,
         'class:zero-leaf-drive': 20, 'class:identical-clients': 100, 'coords:unbiased-offgrid': 20000,
     },
 }
@@ -184,7 +184,10 @@ class GridJudge:
   def moved_bad(self):
     """Non-dyadic on-grid vectors: a coordinate may move only with rounding-sized probability."""
     g = self.g
-    _, kmax = band(self.n, 0.0, np.full(g.x.size, 2.0**-22 + 8 * EPS32 * (g.L - 1)))
+    # float32(vmin + k*step) is itself up to an ulp off the exact grid between float32 min and max: that true
+    # fractional offset is a legitimate probability of landing on the other neighbour.
+    off = np.minimum(g.frac, 1 - g.frac)
+    _, kmax = band(self.n, 0.0, off + 2.0**-22 + 8 * EPS32 * (g.L - 1))
     return np.flatnonzero(self.moved > kmax), kmax
 
 
@@ -501,7 +504,7 @@ def run_mc(ctx, jax, jnp, C):
   per = 3 if ctx.quick else 2
   P = S * per
   pool = shape_pool(ctx.rng('mc-shapes'), P)
-  sweeps = 10 if ctx.quick else 18
+  sweeps = 14 if ctx.quick else 30
   nkeys = 4096 if ctx.quick else 65536
   fns = {}
 
@@ -792,6 +795,31 @@ def run_agg(ctx, jax, jnp, C):
       return C.structured_drive_quantizer(key)
     return C.terngrad_quantizer(key)
 
+  # Key-discipline hook (module-attribute wrapping, DESIGN 2.5): record the PRNG key handed to the per-client
+  # quantize / rotate functions during a general-weight apply. Zero hook hits => INCONCLUSIVE via MIN_HITS.
+  rec = {'buf': None}
+
+  def hook(mod, name, tag, argpos):
+    orig = getattr(mod, name)
+
+    def wrapped(*a, **k):
+      ctx.count('hook:' + tag)
+      if rec['buf'] is not None:
+        key = k['rng'] if 'rng' in k else (a[argpos] if len(a) > argpos else None)
+        try:
+          rec['buf'].append((tag, tuple(int(x) for x in np.asarray(key).ravel())))
+        except Exception:  # pylint: disable=broad-except
+          rec['buf'].append((tag, None))
+      return orig(*a, **k)
+
+    setattr(mod, name, wrapped)
+
+  hook(C, 'uniform_stochastic_quantize_pytree', 'uq', 2)
+  hook(C, 'terngrad_quantize_pytree', 'tq', 1)
+  hook(C.walsh_hadamard, 'structured_rotation_pytree', 'rot', 1)
+  per_client_tags = {'uniform': ['uq'], 'arith': ['uq'], 'rotated': ['uq'], 'drive': ['rot'], 'tern': ['tq']}
+  per_round_tags = {'uniform': ['uq'], 'arith': ['uq'], 'rotated': ['uq', 'rot'], 'drive': ['rot'], 'tern': ['tq']}
+
   for cid, rng in ctx.cases('agg', P * len(KINDS) * sweeps):
     i = int(cid.split('/')[1])
     sid = i % P
@@ -883,16 +911,35 @@ def run_agg(ctx, jax, jnp, C):
       big_normal = any(c == 'normal' and sz >= 32 for c, sz in zip(leaf_classes, sizes))
       logsame = [(-1e9 if big_normal else 0.0)] * K
     prev_q = None
+    seen_keys = {}
     aborted = False
     judged_any = False
     for rnd in range(3):
       rwit = {**wit, 'round': rnd}
       clients = [(ids[j], trees[j], weights[j]) for j in range(K)]
-      r = ctx.call(entry, agg.apply, clients, state, witness=rwit)
+      rec['buf'] = []
+      try:
+        r = ctx.call(entry, agg.apply, clients, state, witness=rwit)
+      finally:
+        used, rec['buf'] = rec['buf'], None
       if not r.ok:
         aborted = True
         break
       out, new_state = r.value
+      for tag in per_round_tags[kind]:
+        ks = [k_ for t_, k_ in used if t_ == tag and k_ is not None]
+        if not ks:
+          ctx.count('hook:no-key-observed')
+          continue
+        if tag in per_client_tags[kind]:
+          ctx.check(len(ks) == K and len(set(ks)) == len(ks), f'clientkeys/{kind}-same-key-for-two-clients',
+                    f'{len(ks)} per-client {tag} calls for {K} clients used only {len(set(ks))} distinct PRNG keys',
+                    {**rwit, 'hook': tag, 'keys': ks})
+        reused = set(ks) & seen_keys.setdefault(tag, set())
+        ctx.check(not reused, f'rounds/{kind}-key-reused-from-earlier-round',
+                  f'a PRNG key handed to the {tag} step in round {rnd} was already used in an earlier round',
+                  {**rwit, 'hook': tag, 'reused': sorted(reused)[:3]})
+        seen_keys[tag] |= set(ks)
       out_l = [np.asarray(l) for l in leaves_of(out)]
       qs, hot_states = [], []
       for j in range(K):
